@@ -132,7 +132,15 @@ def run_pc(case, drv):
                             if not drv.call("g_dsep", g=mg, obs=list(Z), x=a, y=b):
                                 # events are given as lists: a bare name that is falsy (the variable 0) would read as "not specified"
                                 stm.append([[names[a]], [names[b]], [names[z] for z in Z]] if Z else [[names[a]], [names[b]]])
-            ind = Independencies(*stm)
+            if (len(edges) + n) % 2:
+                # the list is filled in two stages, with a membership test in between (as when statements are collected one by one)
+                half = len(stm) // 2
+                ind = Independencies(*stm[:half])
+                if stm:
+                    _ = stm[-1] in ind.get_assertions() or ind.contains(__import__("pgmpy.independencies", fromlist=["IndependenceAssertion"]).IndependenceAssertion(*stm[-1]))
+                ind.add_assertions(*stm[half:])
+            else:
+                ind = Independencies(*stm)
             if set(ind.get_all_variables()) != set(names):
                 return skip("a variable occurs in no independence statement (the API derives the variable set from the list)")
             est = PC(independencies=ind)
@@ -236,7 +244,15 @@ def run_todag(case, drv):
     try:
         pd_ = PDAG(directed_ebunch=[(names[u], names[v]) for u, v in de], undirected_ebunch=[(names[u], names[v]) for u, v in ue])
         pd_.add_nodes_from(names)
+        before = (set(pd_.nodes()), set(pd_.directed_edges), {frozenset(e) for e in pd_.undirected_edges}, set(map(tuple, pd_.edges())))
         dag = pd_.to_dag()
+        after = (set(pd_.nodes()), set(pd_.directed_edges), {frozenset(e) for e in pd_.undirected_edges}, set(map(tuple, pd_.edges())))
+        if before != after:
+            return fail(f"to_dag changed the PDAG it was called on: nodes {sorted(map(str, before[0]))} -> {sorted(map(str, after[0]))}, "
+                        f"{len(before[3])} -> {len(after[3])} edges", mode=case["mode"])
+        dag2 = pd_.to_dag()
+        if set(dag2.nodes()) != set(dag.nodes()) or set(dag2.edges()) != set(dag.edges()):
+            return fail(f"a second to_dag() on the same PDAG gives {sorted(dag2.edges())}, the first gave {sorted(dag.edges())}", mode=case["mode"])
     except Exception as e:
         return fail(f"to_dag raised {type(e).__name__}: {e}", mode=case["mode"])
     got = [[names.index(u), names.index(v)] for u, v in dag.edges()]
